@@ -503,7 +503,7 @@ func replay() {
 		}
 		fmt.Printf("replaying %s ops=%s on a fresh types.VoteSet\n", j.label(), strings.Join(c.Ops, ";"))
 		step, fs := j.runOps(ops, func(s string) { fmt.Println(s) })
-		if step < 0 {
+		if len(fs) == 0 {
 			fmt.Println("observed: the property holds on this history")
 		}
 		for _, f := range fs {
